@@ -60,13 +60,16 @@ def make_rule(name: str):
         return P.RewriteRule(lambda op, x: op.Add(op.Add(x, 1.0), 2.0), rep, name=name)
     if name == "neg_neg_as_function":
         return P.RewriteRule(lambda op, x: op.Neg(op.Neg(x)), lambda op, x: op.NegNeg(x, _domain="vp.custom"), name=name, as_function=True)
+    if name == "mul_add_as_function":
+        return P.RewriteRule(lambda op, x, y, z: op.Mul(op.Add(x, y), z), lambda op, x, y, z: op.AddMul(x, y, z, _domain="vp.custom"),
+                             name=name, as_function=True)
     if name == "relu_neg_keep_nodes":
         return P.RewriteRule(lambda op, x: op.Neg(op.Relu(x)), lambda op, x: op.Min(op.Neg(x), op.Constant(value_float=0.0)), name=name, remove_nodes=False)
     raise KeyError(name)
 
 
 RULES = ["reemit_relu", "swap_add", "double_transpose", "neg_neg", "mul_one", "relu_neg_two_outputs", "sub_to_add_neg",
-         "add_const_reassoc", "neg_neg_as_function", "relu_neg_keep_nodes"]
+         "add_const_reassoc", "neg_neg_as_function", "relu_neg_keep_nodes", "mul_add_as_function"]
 
 
 def instance(rule: str, src: str, pfx: str, nodes: list, inits: list):
@@ -101,6 +104,10 @@ def instance(rule: str, src: str, pfx: str, nodes: list, inits: list):
         nodes.append(oh.make_node("Relu", [src], [n("r")]))
         nodes.append(oh.make_node("Neg", [n("r")], [n("nr")]))
         return n("nr"), [n("r")]
+    if rule == "mul_add_as_function":
+        nodes.append(oh.make_node("Add", [src, "aux"], [n("a")]))
+        nodes.append(oh.make_node("Mul", [n("a"), "dflt"], [n("m")]))
+        return n("m"), [n("a")]
     if rule == "sub_to_add_neg":
         nodes.append(oh.make_node("Sub", [src, "aux"], [n("s")]))
         return n("s"), []
@@ -119,8 +126,15 @@ def hosts(rule: str):
     shape = [2, 2]
     vi = lambda n, dt=F, sh=shape: oh.make_tensor_value_info(n, dt, sh)  # noqa: E731
     aux = nh.from_array(np.array([[0.5, -1.0], [2.0, 0.25]], dtype=np.float32), "aux")
+    dflt = nh.from_array(np.array([[1.0, 2.0], [-1.0, 0.5]], dtype=np.float32), "dflt")
 
     def finish(tag, nodes, inits, outs, expect, inputs=("x",), functions=(), extra=()):
+        uses_dflt = any("dflt" in nd.input for nd in nodes) or any("dflt" in sub.input for nd in nodes for a in nd.attribute
+                                                                    if a.type == onnx.AttributeProto.GRAPH for sub in a.g.node)
+        if uses_dflt and "dflt" not in inputs:
+            inputs = tuple(inputs) + ("dflt",)      # graph input WITH a default initializer: an overridable value, not a constant
+        if uses_dflt:
+            inits = list(inits) + [dflt]
         g = oh.make_graph(nodes, "g", [vi(n) if n != "c" else vi("c", B, []) for n in inputs], [vi(o) for o in outs], [aux] + inits)
         m = oh.make_model(g, opset_imports=[oh.make_opsetid("", 18)] + [oh.make_opsetid(d, v) for d, v in extra], functions=list(functions), ir_version=9)
         try:
@@ -133,6 +147,19 @@ def hosts(rule: str):
     # k = 0
     nodes, inits = [oh.make_node("Abs", ["x"], ["y"])], []
     finish("k=0 (no instance)", nodes, inits, ["y"], 0)
+    # the instance's operand is a graph input that merely has a default value
+    nodes, inits = [], []
+    o, _ = instance(rule, "xd", "d0", nodes, inits)
+    nodes.append(oh.make_node("Add", [o, "x"], ["zd"]))
+    g_ = oh.make_graph(nodes, "g", [vi("x"), vi("xd")] + ([vi("dflt")] if rule == "mul_add_as_function" else []), [vi("zd")],
+                       [aux, nh.from_array(np.array([[3.0, -2.0], [0.5, 1.0]], dtype=np.float32), "xd")] + ([dflt] if rule == "mul_add_as_function" else []) + inits)
+    m_ = oh.make_model(g_, opset_imports=[oh.make_opsetid("", 18)], ir_version=9)
+    try:
+        m_ = onnx.shape_inference.infer_shapes(m_)
+    except Exception:  # noqa: BLE001
+        pass
+    out.append((f"{rule}: operand is an initializer-input (overridable default)", m_,
+                [("x", int(F), tuple(shape)), ("xd", int(F), tuple(shape))] + ([("dflt", int(F), tuple(shape))] if rule == "mul_add_as_function" else []), 1))
     # k = 1, 2, 3 chained
     for k in (1, 2, 3):
         nodes, inits = [], []
@@ -187,7 +214,7 @@ def hosts(rule: str):
     finish("instance inside a Loop body (captures x)", [oh.make_node("Loop", ["trip", "cond", "x"], ["y"], body=body)], [trip, cond], ["y"], 1)
     # inside a model-local function
     fnodes, finits = [], []
-    if rule not in ("mul_one", "add_const_reassoc", "swap_add", "sub_to_add_neg"):  # function bodies cannot own initializers / outer aux
+    if rule not in ("mul_one", "add_const_reassoc", "swap_add", "sub_to_add_neg", "mul_add_as_function"):  # function bodies cannot own initializers / outer aux
         o_, _ = instance(rule, "p", "f0", fnodes, finits)
         fnodes.append(oh.make_node("Identity", [o_], ["q"]))
         fn = oh.make_function("local", "Fn", ["p"], ["q"], fnodes, [oh.make_opsetid("", 18)])
@@ -224,7 +251,7 @@ def _worker(payload):
             try:
                 import base64
                 # multiset of unmatched node types is preserved: ops outside the rule's vocabulary
-                vocab = {"Relu", "Add", "Transpose", "Neg", "Mul", "Sub", "Identity", "Constant", "Fn", "Max", "Min", "CastLike", "Cast"}
+                vocab = {"Relu", "Add", "Transpose", "Neg", "Mul", "Sub", "Identity", "Constant", "Fn", "Max", "Min", "CastLike", "Cast", "AddMul", "NegNeg"}
                 def cnt(m):
                     c = {}
                     def walk(g):
